@@ -227,6 +227,13 @@ class World:
         def un2(meta, ch):
             return CX(list(reversed(list(ch))), meta[1])
 
+        def fl3(o):  # same metadata, same entries, same arity as `fl` -- only the order of the children differs
+            return list(reversed(o.children)), o.meta, tuple(f'k{i}' for i in range(len(o.children)))
+
+        def un3(meta, ch):
+            return CX(list(reversed(list(ch))), meta)
+
+        self.fl3, self.un3 = fl3, un3
         self.CX, self.fl, self.un, self.fl2, self.un2 = CX, fl, un_, fl2, un2
         self.ns = 'ns14'
         optree.register_pytree_node(CX, fl, un_, namespace=self.ns)
@@ -334,8 +341,18 @@ class World:
             'eq-self': s == s and (self.registered is not True or (copy.copy(s) == s and hash(copy.deepcopy(s)) == hash(s))),
             'unflatten': self.same(got, self.expected_tree(fresh)),
             # matching *another* tree against the spec consults the live registry by design
-            'flatten_up_to': self.registered is not True or tuple(map(id, s.flatten_up_to(got))) == tuple(map(id, fresh)),
+            'flatten_up_to': self._flatten_up_to_ok(s, got, fresh),
         }
+
+    def _flatten_up_to_ok(self, s, got, fresh):
+        """Matching *another* tree against the spec consults the live registry by design: with the original registration
+        it returns the leaves in the treespec's order; after unregister / re-register it may refuse (ValueError) but
+        must never answer with a different order."""
+        try:
+            r = s.flatten_up_to(got)
+        except ValueError:
+            return self.registered is not True
+        return tuple(map(id, r)) == tuple(map(id, fresh))
 
     def registered_original(self):
         return self.registered == 'orig' or self.registered is True
@@ -351,7 +368,7 @@ EVENTS = (
     ('mut-src', 'grow'), ('mut-src', 'shrink'), ('mut-src', 'clear'), ('mut-src', 'reorder'), ('mut-src', 'inner'),
     ('mut-ret', 'paths'), ('mut-ret', 'accessors'), ('mut-ret', 'entries'), ('mut-ret', 'children'),
     ('mut-ret', 'leaves'), ('mut-ret', 'path-tuple'),
-    ('unregister',), ('reregister-other',), ('del-tree',), ('gc',),
+    ('unregister',), ('reregister-other',), ('reregister-same-meta',), ('del-tree',), ('gc',),
 )
 
 
@@ -372,7 +389,7 @@ class SpecSystem(explore.System):
                 continue
             if e[0] == 'unregister' and reg == 'none':
                 continue
-            if e[0] == 'reregister-other' and reg != 'none':
+            if e[0] in ('reregister-other', 'reregister-same-meta') and reg != 'none':
                 continue
             if e[0] == 'del-tree' and not alive:
                 continue
@@ -385,6 +402,8 @@ class SpecSystem(explore.System):
             reg = 'none'
         elif ev[0] == 'reregister-other':
             reg = 'other'
+        elif ev[0] == 'reregister-same-meta':
+            reg = 'same-meta'
         elif ev[0] == 'del-tree':
             alive = False
         eff = eff | {ev}
@@ -472,6 +491,9 @@ class SpecSystem(explore.System):
         elif ev[0] == 'reregister-other':
             optree.register_pytree_node(w.CX, w.fl2, w.un2, namespace='ns14')
             w.registered = 'other'
+        elif ev[0] == 'reregister-same-meta':
+            optree.register_pytree_node(w.CX, w.fl3, w.un3, namespace='ns14')
+            w.registered = 'same-meta'
         elif ev[0] == 'del-tree':
             w.tree = None
             w.leaves = None
